@@ -148,8 +148,17 @@ class Family(object):
             ('PM.sample', lambda k: self.PM.sample(xs[k], tt, n_samples=3, seed=s['seed'] + k, return_df=False)),
             ('M.simulate', lambda k: self.M.simulate(xs[k][:ll0['n_par']], np.array([0.5, 1.0, 2.0]))),
         ]
+        # pointwise evaluation over a posterior dataset that stores the parameters under other names (param_map)
+        import xarray as xr
+        lnames = [str(n) for n in self.L1.get_parameter_names()]
+        pmap = {n: 'stored %d' % j for j, n in enumerate(lnames) if j % 2 == 0}
+        dsets = [xr.Dataset({pmap.get(n, n): xr.DataArray(np.array([[xs[k][j], xs[(k + 1) % 3][j]]]), dims=['chain', 'draw'],
+                                                          coords={'chain': [0], 'draw': [0, 1]})
+                             for j, n in enumerate(lnames)}) for k in range(3)]
+        calls.append(('L1.pointwise_dataset',
+                      lambda k: np.asarray(chi.compute_pointwise_loglikelihood(self.L1, dsets[k], param_map=dict(pmap)).values)))
         self.derived_independent = {'L1.call', 'L1.pointwise', 'L1.S1', 'L2.call', 'L2.S1', 'P1.call', 'P1.S1',
-                                    'PM.sample'}
+                                    'PM.sample', 'L1.pointwise_dataset'}
         if h['n_ids'] >= 2:
             # hierarchical objects over freshly built likelihoods of the same user models
             lls = [chi.LogLikelihood(self.M, self.ems, d[0], d[1]) for d in data]
@@ -236,6 +245,9 @@ class Family(object):
         self.fpx = [self._keep('fpx', np.linspace(0.6, 1.4, n_fp) * (1 + 0.05 * k)) for k in range(3)]
         calls += [('FP.call', lambda k: self.FP(self.fpx[k])), ('FP.S1', lambda k: self.FP.evaluateS1(self.fpx[k]))]
         self.calls = calls
+        self.named = [('L1', self.L1), ('L2', self.L2), ('P1', self.P1), ('PM', self.PM), ('FP', self.FP)]
+        if hasattr(self, 'HP'):
+            self.named += [('H', self.H), ('HP', self.HP), ('PPM', self.PPM)]
 
     def _pkpd(self, chi):
         from vf import simshim
@@ -345,6 +357,7 @@ def check(case):
     if case.fails:
         return
     names = [n for n, _ in fam.calls]
+    names_at_start = [(lab, [str(n) for n in obj.get_parameter_names()]) for lab, obj in getattr(fam, 'named', [])]
     recorded = {}                 # (call name, k) -> normalised first result (own copy)
     returned = []                 # (what, live returned arrays, copies at return time)
     last = None
@@ -423,6 +436,13 @@ def check(case):
         for what, live, copies in returned:
             for a, b in zip(live, copies):
                 case.close(a, b, rtol=0, atol=0, what='array returned by %s changed after later calls' % what)
+
+    # objects derived from the user's models report the same parameter names as after their construction
+    with case.clause('names_unchanged'):
+        for (lab, before), (_, obj) in zip(names_at_start, getattr(fam, 'named', [])):
+            case.equal([str(n) for n in obj.get_parameter_names()], before,
+                       'parameter names of %s after the program (evaluations only%s)' % (
+                           lab, ', user models mutated' if mutated else ''))
 
     with case.clause('inputs_unchanged'):
         for label, obj, cp in fam.inputs:
